@@ -479,6 +479,7 @@ class Abstraction:
                 e.name = "%s::%s" % (pc["self_ty"], pc["method"])
             else:
                 e.name = "::".join(pc["path"][-1:] + [pc["method"]])
+        e.ops = t[3]
         e.closures = re.findall(r"\{closure@[^}]*\}", t[2])
         e.args = [self.opath(a) for a in t[3]]
         e.argv = [self.read_op(env, a) for a in t[3]]
@@ -557,6 +558,38 @@ class Abstraction:
                     item["variant"] = model[om]
             out.append(item)
         return out
+
+    def derive(self, op, depth=0):
+        """Static provenance of an operand: `method(derivations of the args)` through single-definition call results,
+        access paths otherwise, `?_n` for a local with several definitions."""
+        if op[0] == "const":
+            return "const"
+        t = self.opath(op)
+        m = re.fullmatch(r"_(\d+)((?: as \w+)?(?:\.\w+)*)", t)
+        if not m or depth > 8:
+            return t
+        n = int(m.group(1))
+        if n in self.params:
+            return t
+        d = self._defs.get(n, [])
+        if len(d) == 1 and d[0][0] == "call":
+            term = self.body.blocks[d[0][1]].term
+            try:
+                pc = Program.parse_callee(term[2])
+                nm = pc["method"]
+            except Exception:
+                nm = "?"
+            return "%s(%s)%s" % (nm, ", ".join(self.derive(a, depth + 1) for a in term[3]), m.group(2))
+        if len(d) == 1:
+            return t
+        return "?" + t
+
+    def arg_is_mut_ref(self, e, i):
+        op = e.ops[i]
+        if op[0] in ("copy", "move") and op[1][0] == "local":
+            d = self._defs.get(op[1][1], [])
+            return len(d) == 1 and d[0][0] == "rv" and d[0][1][0] == "ref" and bool(d[0][1][1])
+        return False
 
     def stats(self):
         return "%d blocks -> %d DAG nodes (loops at %s unrolled <= %d iterations), %d effects (%d calls), %d returns" % (
